@@ -538,5 +538,5 @@ def run(case):
 
 
 SUBS = {
-    'cache': Sub('cache', strat, run, quick=12000, thorough=320000, quick_shards=8),
+    'cache': Sub('cache', strat, run, quick=12000, thorough=320000, quick_shards=16),
 }
